@@ -3,6 +3,7 @@ import importlib
 import io
 import os
 import signal
+import sys
 import types
 
 from vf.core import Kernel
@@ -190,58 +191,94 @@ def k1_empty_and_garbage(ctx):
             data = data[:len(data) // 2]
         elif cut == 2:
             data = data[:64]
-    raised = None
-    _arm(20)
-    try:
+    box = {}
+
+    def run():
         try:
             list(exs[name](io.BytesIO(data), "x.bin"))
         except Exception as e:
-            raised = e
-    except _Timeout:
-        _disarm()
+            if not isinstance(e, E.ExtractionError):
+                raise
+    res = _run_forked(run, 20)
+    if res == "timeout":
         ctx.fail("extractor-did-not-terminate", extractor=name, input=which)
         return
-    finally:
-        _disarm()
-    if raised is not None:
-        ctx.require(isinstance(raised, E.ExtractionError), "non-extraction-error-escaped", extractor=name, input=which,
-                    raised=type(raised).__name__, msg=str(raised)[:80])
+    ctx.require(res == "ok", "non-extraction-error-escaped", extractor=name, input=which, raised=res)
+
+
+class _StepBound:
+    """deterministic watchdog for one symbolic run: counts the lines executed in the code under
+    analysis (repo modules and their lifted copies) and raises BoundExceeded when a path executes
+    more of them than any terminating run on an input of the bounded length can.  Load-independent
+    (a wall-clock watchdog raised false alarms on a busy machine and, delivered late, killed idle
+    pool workers)."""
+
+    def __init__(self, max_lines):
+        self.max = max_lines
+        self.n = 0
+        self.prev = None
+
+    def _local(self, frame, event, arg):
+        if event == "line":
+            self.n += 1
+            if self.n > self.max:
+                sys.settrace(None)
+                raise S.BoundExceeded(f"more than {self.max} lines executed on one path")
+        return self._local
+
+    def _global(self, frame, event, arg):
+        fn = frame.f_code.co_filename
+        if fn.startswith("<lifted ") or fn.startswith(S.REPO):
+            return self._local
+        return None
+
+    def __enter__(self):
+        self.prev = sys.gettrace()
+        sys.settrace(self._global)
+        return self
+
+    def __exit__(self, *a):
+        sys.settrace(self.prev)
+        return False
+
+
+def _run_forked(fn, limit):
+    """run fn() in a forked child under a hard wall-clock limit (the child is killed when it does
+    not finish): 'ok', 'timeout' or 'raised:<ExceptionName>'.  Used for native (concrete) runs that
+    may not terminate - immune to whatever keeps in-process watchdogs from firing."""
+    import os
+    import time
+    r, w = os.pipe()
+    pid = os.fork()
+    if pid == 0:
+        os.close(r)
+        try:
+            try:
+                fn()
+                msg = b"ok"
+            except BaseException as e:      # noqa - child only reports
+                msg = ("raised:" + type(e).__name__).encode()
+            os.write(w, msg)
+        finally:
+            os._exit(0)
+    os.close(w)
+    deadline = time.time() + limit
+    out = "timeout"
+    while time.time() < deadline:
+        done, _ = os.waitpid(pid, os.WNOHANG)
+        if done:
+            data = os.read(r, 200)
+            out = data.decode() if data else "raised:ChildDied"
+            break
+        time.sleep(0.01)
     else:
-        ctx.require(True, "returned")
-
-
-class _Timeout(BaseException):
-    pass
-
-
-def _on_alarm(signum, frame):
-    raise _Timeout()
-
-
-_BACKUP = []
-
-
-def _async_raise(tid):
-    import ctypes
-    ctypes.pythonapi.PyThreadState_SetAsyncExc(ctypes.c_ulong(tid), ctypes.py_object(_Timeout))
-
-
-def _arm(seconds):
-    """watchdog for one native run: SIGALRM, plus an asynchronous exception from a timer thread
-    as a second line (signal delivery proved unreliable in pool workers that host solver threads)"""
-    import threading
-    signal.signal(signal.SIGALRM, _on_alarm)
-    signal.setitimer(signal.ITIMER_REAL, seconds)
-    t = threading.Timer(seconds + 0.5, _async_raise, args=(threading.main_thread().ident,))
-    t.daemon = True
-    t.start()
-    _BACKUP.append(t)
-
-
-def _disarm():
-    signal.setitimer(signal.ITIMER_REAL, 0)
-    while _BACKUP:
-        _BACKUP.pop().cancel()
+        try:
+            os.kill(pid, signal.SIGKILL)
+        except ProcessLookupError:
+            pass
+        os.waitpid(pid, 0)
+    os.close(r)
+    return out
 
 
 # ---------------------------------------------------------------------------------------
@@ -299,10 +336,10 @@ class _UnicodeRe:
 
 def k2_termination(ctx):
     """whole-function bounded termination: every feasible path of the loop-carrying function
-    finishes (within the per-path watchdog) for every input of the bounded length"""
+    finishes (within the per-path decision/line bound) for every input of the bounded length"""
     which = ctx.params["fn"]
     n = ctx.params["len"]
-    limit = ctx.params.get("watchdog_s", 2)
+    limit = ctx.params.get("watchdog_s", 5)
     if which.startswith("rtf"):
         from sharepoint2text.parsing.extractors.ms_legacy import rtf_extractor as m
         from vf import lift
@@ -367,40 +404,36 @@ def k2_termination(ctx):
         mod = m
     else:
         raise KeyError(which)
-    _arm(limit)
-    try:
-        if ctx.concrete:
-            # replay on the real code with plain values (environment stubs only)
-            if which == "xls_filepass":
-                with ctx.stub(mod, olefile=shadows["olefile"]):
-                    target()
-            else:
-                target()
+    if ctx.concrete:
+        # replay on the real code with plain values (environment stubs only), in a forked child
+        # under a hard limit
+        if which == "xls_filepass":
+            with ctx.stub(mod, olefile=shadows["olefile"]):
+                res = _run_forked(target, limit)
         else:
+            res = _run_forked(target, limit)
+        if ctx.perturb == "expect_timeout":
+            ctx.fail("twin")
+        ctx.require(res != "timeout", "loop-did-not-terminate", fn=which, watchdog_s=limit)
+        return
+    try:
+        with _StepBound(ctx.params.get("max_lines", 40000)):
             with ctx.shadow(mod, **shadows):
                 target()
-    except _Timeout:
-        _disarm()
-        ctx.fail("loop-did-not-terminate", fn=which, watchdog_s=limit)
-        return
     except S.BoundExceeded:
-        # more solver-decided iterations than any terminating run on an input of this length can
-        # make: candidate non-termination, confirmed (or refuted) by the concrete replay's watchdog
-        _disarm()
-        ctx.fail("loop-did-not-terminate", fn=which, reason="decision bound exceeded")
+        # more solver-decided iterations / executed lines than any terminating run on an input of
+        # this length can make: candidate non-termination, confirmed (or refuted) by the concrete
+        # replay, which runs the real function in a child process under a hard wall-clock limit
+        ctx.fail("loop-did-not-terminate", fn=which, reason="decision/line bound exceeded")
         return
     except S.Unsupported:
-        _disarm()
         raise
     except Exception as e:
         # the failure surface is K1's subject; here only termination counts - but an exception
         # that comes from a proxy the code cannot carry must not pass for "terminated"
         if not ctx.concrete and isinstance(e, (TypeError, AttributeError)):
-            _disarm()
             ctx.run.errors.append(f"{which}: proxy could not flow through the code: {type(e).__name__}: {e}")
             return
-    finally:
-        _disarm()
     if ctx.perturb == "expect_timeout":
         ctx.fail("twin")
     ctx.require(True, "terminated")
@@ -539,7 +572,7 @@ KERNELS = [
                __import__("sharepoint2text.parsing.extractors.util.encryption", fromlist=["x"]).is_xls_encrypted],
            parts=_k2_parts, perturb=[("expect_timeout", {"fn": "rtf_ignorable", "len": 2})], max_depth=160,
            symbolic=["every character of the RTF text (from the RTF lexeme alphabet) / every byte of the record stream"],
-           assumptions=["per-path watchdog (2 s) or more than 160 solver decisions on an input of <= 6 characters / 32 bytes stands for non-termination; a hit is replayed concretely under the same watchdog"],
+           assumptions=["more than 160 solver decisions or 40000 executed lines on one path of an input of <= 6 characters / 32 bytes stands for non-termination; a hit is replayed on the real function in a child process under a 5 s hard wall-clock limit"],
            outside=["inputs longer than the bound (RTF 5/6 characters, record streams 20/32 bytes)",
                     "loops driven by third-party iterators (pypdf, SharePoint paging)"],
            timeout={"quick": 280, "thorough": 2400}),
@@ -560,5 +593,5 @@ META = {
                   "native run of the real code. K2 has symbolic data reaching the loops' own branches. Outside: what real "
                   "malformed bytes do inside third-party parsers.",
     "technique": "symbolic fault schedules over the real extractor wrappers + symbolic bounded inputs through the real "
-                 "loops with a per-path termination watchdog (symrun)",
+                 "loops with a per-path decision/line bound, hits replayed under a hard wall-clock limit (symrun)",
 }
